@@ -58,6 +58,15 @@ def run(c):
             pts.append([ky, kx, fhex(z.real), fhex(z.imag), fhex(float(np.asarray(r.FX)[ky, kx])), fhex(float(np.asarray(r.FY)[ky, kx]))])
         out["points"] = pts
         return out
+    if c["mode"] == "rfft2":
+        # the forward half-plane transform and the FFT convolution exactly as conv_fft spells it, on tiny arrays
+        N = c["N"]
+        a, b = jnp.array(np.array(c["a"], np.float32)), jnp.array(np.array(c["b"], np.float32))
+        A = np.asarray(jnp.fft.rfft2(a))
+        out["freqs"] = [[ky, kx, fhex(float(A[ky, kx].real)), fhex(float(A[ky, kx].imag))] for (ky, kx) in c["freqs"]]
+        cv = np.asarray(jnp.fft.irfft2(jnp.fft.rfft2(a) * jnp.fft.rfft2(b), s=(N, N)))
+        out["pixels"] = [[r_, c_, fhex(float(cv[r_, c_]))] for (r_, c_) in c["pixels"]]
+        return out
     if c["mode"] == "point":
         N, P = c["N"], c["P"]
         integer_pos = float(c["xc"]).is_integer() and float(c["yc"]).is_integer()
